@@ -19,6 +19,31 @@ CLAIMED = {
    text="Round-robin pick arithmetic decided for every pool size 1..8 and every counter value below 2^62 by symbolic execution of the real roundRobinLB.Pick; lazy-initialisation interleavings by the partial-order encoding (see DESIGN 5.19).",
    note="openPoll stubbed by a ghost poller; fastrand arbitrary in range; bounds in evidence", ref="5.19"),
 }
+PO_NOTE = "sequential consistency; buffers summarised on their length counter; kernel (epoll_ctl, close, sendmsg), timers and runner.RunTask replaced by ghost stubs; poller slot recycling stubbed to the token protocol (C10 covers it); bounds (deliveries, closers, task instances, state revisits) in evidence; counterexamples are schedules over real source lines, replayed at the interpreter level only (no native schedule replay)"
+SEQ_NOTE = "kernel calls replaced by nondeterministic stubs with stated contracts; counterexamples re-executed concretely in the interpreter (stubs cannot be installed in the native build)"
+CLAIMED.update({
+ "C05": dict(cat="model_checking", tech="partial-order (event/clock) SMT encoding of per-thread symbolic executions of go/ssa",
+   text="The real Close/onClose/onHup/closeCallback/onProcess/locker/FDOperator.Control code is executed symbolically per thread (poller with hang-up goroutine, 1-2 closers, handler tasks spawned through runner.RunTask, handler returning/consuming/closing/panicking); every interleaving is a clock assignment; exactly-once, ordering and no-overlap monitors are decided as safety queries, 'everything torn down' as a quiescence query.",
+   note=PO_NOTE, ref="5.7"),
+ "C06": dict(cat="model_checking", tech="partial-order (event/clock) SMT encoding of per-thread symbolic executions of go/ssa",
+   text="inputAck/onRequest/onProcess/SetOnRequest/onConnect hand-off executed symbolically per thread for 2 deliveries, SetOnRequest racing a delivery, OnConnect still running, delivery + hang-up; mutual exclusion of handler invocations (safety) and 'no quiescent state with stranded input' (quiescence with maximality).",
+   note=PO_NOTE, ref="5.8"),
+ "C07": dict(cat="model_checking", tech="partial-order SMT encoding + bounded symbolic execution (sequential part)",
+   text="waitRead/waitReadWithTimeout/triggerRead/inputAck/onHup/onClose executed symbolically: reader (1-2 successive calls) vs poller chunks, timer expiry at any point (pre-1.23 timer channel ghost), peer close, local close; wake-up oracle as safety, 'never blocked once data/close/expiry holds' as quiescence; deadline boundary and NewFDConnection-style connections sequentially.",
+   note=PO_NOTE, ref="5.9"),
+ "C09": dict(cat="model_checking", tech="partial-order (event/clock) SMT encoding of per-thread symbolic executions of go/ssa",
+   text="onPrepare/register (sequential prologue), onConnect/onDisconnect/onRequest/onProcess/onHup/closeCallback per thread: accept path vs poller (first data, hang-up at any point relative to OnConnect); order monitors in the callbacks as safety, 'OnDisconnect ran exactly once' as quiescence.",
+   note=PO_NOTE, ref="5.11"),
+ "C10": dict(cat="model_checking", tech="bounded symbolic execution of go/ssa + SMT over close/reopen/stale-call histories",
+   text="Sequential histories over the real operatorCache/FDOperator/defaultPoll/connection code with real buffers: A registered and an event fetched, A closed (user or hang-up), batch end before/after B opens (possibly with A's descriptor number), one of 6 stale calls on A; B's input, slot token, activity and handler must be untouched and the slot not re-issued before the batch ends.",
+   note=SEQ_NOTE, ref="5.12"),
+ "C11": dict(cat="model_checking", tech="bounded symbolic execution of go/ssa + SMT; event words and kernel answers symbolic",
+   text="defaultPoll.handler/appendHup/detach/onhups/readall/ioread/iosend executed on a batch whose 32-bit flag words, unread-byte counts and every readv/sendmsg/Recvmsg answer are solver variables; log oracles: input before hang-up, ack counts equal kernel counts, hang-up once and after deregistration, drain-before-hang-up, slot token returned, wake-up/close arithmetic of the eventfd.",
+   note=SEQ_NOTE, ref="5.13"),
+ "C12": dict(cat="model_checking", tech="bounded symbolic execution of go/ssa + SMT over the method x close-mode matrix",
+   text="23 methods x {user, peer, peer then user, detach} x {with/without OnRequest} x {output pending or not}, input 0..64 bytes symbolic: the real close path runs to completion on real buffers, then the method is called, then Close, then the method again; no panic path, no blocking path, ErrConnClosed/ErrEOF matching as stated.",
+   note=SEQ_NOTE, ref="5.14"),
+})
 NA = {}
 props = [json.loads(l)["id"] for l in open("/verif/properties.jsonl")]
 checks = []
